@@ -14,7 +14,7 @@ def builtin_ops():
     return sorted(((v, k) for k, v in vars(BO).items() if isinstance(v, int) and k != "CUSTOM"))
 
 
-def op_alone(opname, arity, dtype, shape, quant="tensor", const_inputs=True, batch=None):
+def op_alone(opname, arity, dtype, shape, quant="tensor", const_inputs=True, batch=None, out_dtype=None):
     """One operator `opname` with `arity` inputs and one output of the same shape, no builtin options."""
     net = Net(0)
     shape = list(shape)
@@ -36,8 +36,12 @@ def op_alone(opname, arity, dtype, shape, quant="tensor", const_inputs=True, bat
             c = net.act(shape, dtype, name="input%d" % k, noquant=noq)
             net.inputs.append(c)
         ins.append(c)
-    y = net.act(shape, dtype, name="output", noquant=noq)
-    net.op(opname, ins, [y], None)
+    od = out_dtype or dtype
+    y = net.act(shape, od, name="output", noquant=noq or od in ("float32", "bool", "int64"))
+    opts = None
+    if opname in ("ADD", "SUB", "MUL"):
+        opts = ({"ADD": "AddOptions", "SUB": "SubOptions", "MUL": "MulOptions"}[opname], dict(FusedActivationFunction=0))
+    net.op(opname, ins, [y], opts)
     return net.model()
 
 
@@ -62,6 +66,14 @@ def corner_cases(tier):
         else:
             out.append(dict(op=name, arity=2, dtype="float32", rank=2, quant="none"))
             out.append(dict(op=name, arity=1, dtype="int16", rank=3, quant="tensor"))
+    # mixed input/output element types (widening / narrowing) on the elementwise family
+    mixed_ops = ["ADD", "SUB", "MUL", "MAXIMUM", "MINIMUM", "ABS", "LEAKY_RELU", "QUANTIZE", "RELU", "LOGISTIC", "TANH", "SQUARED_DIFFERENCE", "RSQRT", "EXP", "HARD_SWISH"]
+    if tier == "thorough":
+        mixed_ops = [name for _, name in ops]
+    for name in mixed_ops:
+        for di, do in (("int8", "int16"), ("int8", "int32"), ("int16", "int32"), ("int16", "int8"), ("uint8", "int8"), ("int8", "uint8"), ("int32", "int8")):
+            for arity in (1, 2):
+                out.append(dict(op=name, arity=arity, dtype=di, rank=4, quant="tensor", out_dtype=do))
     # structural corners
     for s in ("empty_subgraph", "unused_tensor", "dup_inputs", "zero_len_buffer", "unknown_opcode", "output_is_input",
               "two_outputs_same", "dup_names", "no_shape", "const_output", "two_subgraphs", "zero_dim"):
@@ -75,7 +87,7 @@ def build_corner(spec):
     shape = list(SHAPES[spec["rank"]])
     if spec.get("batch") and shape:
         shape[0] = spec["batch"]
-    return op_alone(spec["op"], spec["arity"], spec["dtype"], shape, spec.get("quant", "tensor"), const_inputs=not spec.get("dyn"))
+    return op_alone(spec["op"], spec["arity"], spec["dtype"], shape, spec.get("quant", "tensor"), const_inputs=not spec.get("dyn"), out_dtype=spec.get("out_dtype"))
 
 
 def _structural(kind):
